@@ -22,9 +22,15 @@ def sync_alt():
     """VERIF_REPO runs: mirror the harness and native crates into BUILD with their path dependencies pointed at the tree"""
     if not ALT:
         return
-    import shutil
+    import shutil, subprocess, tempfile
+    # the crates are taken from /verif's COMMITTED state (git HEAD), not from the working tree: evaluations of seeded changes run for
+    # hours in the background and must not pick up half-edited harness files (a compile error there silently turns every
+    # obligation into "inconclusive: build_error")
+    snap = tempfile.mkdtemp(prefix="vfsnap")
+    p1 = subprocess.run(f"git -C {VERIF} archive HEAD kani native | tar -x -C {snap}", shell=True)
+    use_snap = p1.returncode == 0 and os.path.isdir(os.path.join(snap, "kani"))
     for name, dst in (("kani", KANI_CRATE), ("native", NATIVE_CRATE)):
-        src = os.path.join(VERIF, name)
+        src = os.path.join(snap if use_snap else VERIF, name)
         for d, dirs, fs in os.walk(src):
             dirs[:] = [x for x in dirs if x != "target"]
             for fn in fs:
@@ -38,6 +44,7 @@ def sync_alt():
                     txt = txt.replace('"/repo/', '"' + REPO.rstrip("/") + "/")
                 if not os.path.exists(dp) or open(dp).read() != txt:
                     open(dp, "w").write(txt)
+    shutil.rmtree(snap, ignore_errors=True)
 
 
 def seed():
